@@ -98,7 +98,7 @@ func CheckC11(h *History) []Finding {
 	var out []Finding
 	add := func(key, f string, a ...any) { out = append(out, Finding{key, h.Fam + ": " + fmt.Sprintf(f, a...)}) }
 	if len(h.Stuck) > 0 {
-		add("stuck-after-close", "20 s after Close was called these client goroutines were still blocked: %v", h.Stuck)
+		add("stuck-after-close", "%v after Close was called these client goroutines were still blocked: %v", StuckLimit(), h.Stuck)
 		return out
 	}
 	if h.Leak != "" {
